@@ -12,10 +12,12 @@ k_Ext == {-128, -127, -1, 0, 1, 127}
 k_Dims == 0..4
 k_QA == {1, 2, 3, 127, 254, 381}
 k_QAq == {2, 3, 127}
-k_QN == {-1000, -256, -255, -128, -127, -64, -3, -2, -1, 0, 1, 2, 3, 63, 64, 127, 128, 255, 256, 1000}
-k_QNq == {-256, -255, -128, -3, -1, 0, 1, 2, 127, 128, 255, 256}
-k_RbN == {-300, -3, -1, 0, 1, 2, 3, 127, 300}
-k_RbNq == {-300, -1, 0, 2, 3}
+k_QN == {-1073741824, -1000, -256, -255, -128, -127, -64, -3, -2, -1, 0, 1, 2, 3, 63, 64, 127, 128, 255, 256, 1000, 16777216, 1073741824}
+k_QNq == {-1073741824, -256, -255, -128, -3, -1, 0, 1, 2, 127, 128, 255, 256, 1073741824}
+k_RbN == {-4, -3, -1, 0, 1, 2, 3, 4}
+k_RbNq == {-3, 0, 1, 2, 4}
+k_RbA == {1, 2, 3, 127}
+k_RbAq == {2, 3, 127}
 k_Den1 == {1}
 k_Den14 == {1, 4}
 k_TrainM == {1, 2, 250, 251, 1000, 1001, 10000, 10001, 20000, 30001}
